@@ -640,6 +640,9 @@ func runC10(c *Ctx) error {
 	if err := c10RotatedRestart(c, l, rng); err != nil {
 		return err
 	}
+	if err := c10RawRevoke(c, l, rng); err != nil {
+		return err
+	}
 	for _, kn := range lib.KnownFor(c.Known, "C10") {
 		if _, done := c.R.KnownReplayed[kn.ID]; done {
 			continue
